@@ -14,8 +14,6 @@ open Trie
 structure Inv (s : State) : Prop where
   /-- the pending tree is a map -/
   bt : KeysOk s.btree
-  /-- pending texts are inside the range `entries_iter_for` scans (no text starts with U+10FFFF) -/
-  range : ∀ e ∈ s.btree, inRange e.1.2 = true
   snap : SnapOk s.snap
   file : SnapOk s.file
   infl : ∀ t, s.inflight = some t → SnapOk t
@@ -40,14 +38,16 @@ theorem absOver_eq_some {b : List Leaf} {s : State} (hb : SnapOk b) (hk : KeysOk
   · simp only [hg, decide_false, Bool.false_eq_true, if_false, not_false_eq_true, true_and, Option.or_eq_some_iff,
       btGet_iff hk, btGet_eq_none, baseGet_iff hb]
 
-/-- candidates of an exact lookup, as membership -/
+/-- candidates of an exact lookup, as membership: a persisted phrase of the key that has no pending
+    entry, or a pending entry of the key — minus tombstones -/
 theorem mem_cands {s : State} (hs : Inv s) {k : Key} {p : Phrase} :
     p ∈ entriesIterFor s k .standard ↔
       (k, p.text) ∉ s.grave ∧
-        ((∃ l ∈ s.snap, l.1 = k ∧ p ∈ l.2) ∨ (∃ v, ((k, p.text), v) ∈ s.btree ∧ p = mkPhrase p.text v)) := by
+        (((∃ l ∈ s.snap, l.1 = k ∧ p ∈ l.2) ∧ ∀ w, ((k, p.text), w) ∉ s.btree) ∨
+          (∃ v, ((k, p.text), v) ∈ s.btree ∧ p = mkPhrase p.text v)) := by
   unfold entriesIterFor
-  simp only [List.mem_filter, List.mem_append, mem_lookupAll_std hs.snap, mem_btreeRange hs.range,
-    List.contains_eq_mem, Bool.not_eq_true', decide_eq_false_iff_not]
+  simp only [List.mem_filter, List.mem_append, mem_lookupAll_std hs.snap, mem_btreeRange,
+    List.contains_eq_mem, Bool.not_eq_true', decide_eq_false_iff_not, btHas_false]
   constructor
   · rintro ⟨h1, h2⟩; exact ⟨h2, h1⟩
   · rintro ⟨h1, h2⟩; exact ⟨h2, h1⟩
@@ -66,18 +66,14 @@ theorem cands_text_iff {s : State} (hs : Inv s) {k : Key} {t : Text} :
   constructor
   · rintro ⟨p, hp, rfl⟩
     obtain ⟨hg, h⟩ := (mem_cands hs).mp hp
-    by_cases hb : ∃ w, ((k, p.text), w) ∈ s.btree
-    · obtain ⟨w, hw⟩ := hb
-      exact ⟨w, (absOver_eq_some hs.snap hs.bt).mpr ⟨hg, Or.inl hw⟩⟩
-    · rcases h with ⟨l, hl, e, hpl⟩ | ⟨v, hv, _⟩
-      · refine ⟨valOf p, (absOver_eq_some hs.snap hs.bt).mpr ⟨hg, Or.inr ⟨?_, l, hl, e, p, hpl, rfl, rfl⟩⟩⟩
-        intro w hw; exact hb ⟨w, hw⟩
-      · exact absurd ⟨v, hv⟩ hb
+    rcases h with ⟨⟨l, hl, e, hpl⟩, hn⟩ | ⟨v, hv, _⟩
+    · exact ⟨valOf p, (absOver_eq_some hs.snap hs.bt).mpr ⟨hg, Or.inr ⟨hn, l, hl, e, p, hpl, rfl, rfl⟩⟩⟩
+    · exact ⟨v, (absOver_eq_some hs.snap hs.bt).mpr ⟨hg, Or.inl hv⟩⟩
   · rintro ⟨v, hv⟩
     obtain ⟨hg, h⟩ := (absOver_eq_some hs.snap hs.bt).mp hv
-    rcases h with h | ⟨_, l, hl, e, p, hp, et, _⟩
+    rcases h with h | ⟨hn, l, hl, e, p, hp, et, _⟩
     · exact ⟨mkPhrase t v, (mem_cands hs).mpr ⟨hg, Or.inr ⟨v, h, rfl⟩⟩, rfl⟩
-    · refine ⟨p, (mem_cands hs).mpr ⟨by rw [et]; exact hg, Or.inl ⟨l, hl, e, hp⟩⟩, et⟩
+    · refine ⟨p, (mem_cands hs).mpr ⟨by rw [et]; exact hg, Or.inl ⟨⟨l, hl, e, hp⟩, by rw [et]; exact hn⟩⟩, et⟩
 
 /-- `add_phrase` is accepted exactly when the key is not live -/
 theorem addOk_eq {s : State} (hs : Inv s) (k : Key) (t : Text) : addOk s k t = (abs s).addOk k t := by
@@ -148,35 +144,38 @@ theorem trie_entries_of_key (t : List Leaf) (k : Key) :
     · have hb' : (x.1 == k) = false := by simpa using hb
       simp only [hb', Bool.false_eq_true, if_false, List.filter_cons, List.nil_append]
 
-theorem bt_entries_of_key {bt : List (PKey × Val)} (hr : ∀ e ∈ bt, inRange e.1.2 = true) (k : Key) :
+theorem bt_entries_of_key (bt : List (PKey × Val)) (k : Key) :
     ((btEntries bt).filter (fun e => e.1 == k)).map (·.2) = btreeRange bt k := by
   unfold btEntries btreeRange
   rw [List.filter_map, List.map_map]
-  have : bt.filter ((fun e : Entry => e.1 == k) ∘ fun e : PKey × Val => (e.1.1, mkPhrase e.1.2 e.2))
-      = bt.filter (fun e => e.1.1 == k && inRange e.1.2) := by
-    apply List.filter_congr
-    intro e he
-    simp [Function.comp, hr e he]
-  rw [this]
   rfl
 
 /-- the phrases a snapshot inserts under `k` are the candidates of the exact lookup of `k` -/
-theorem entries_of_key {s : State} (hr : ∀ e ∈ s.btree, inRange e.1.2 = true) (k : Key) :
+theorem entries_of_key (s : State) (k : Key) :
     ((entries s).filter (fun e => e.1 == k)).map (·.2) = entriesIterFor s k .standard := by
   unfold entries entriesIterFor
   rw [filter_key_entries (fun e => !(s.grave.contains (e.1, e.2.text))) (fun p => !(s.grave.contains (k, p.text))) k
     (by intro e he; simp [he])]
-  rw [List.filter_append, List.map_append, trie_entries_of_key, bt_entries_of_key hr]
-
-/-- candidates split into the persisted and the pending part, each with pairwise different texts -/
-theorem cands_split (s : State) (k : Key) :
-    entriesIterFor s k .standard =
-      (Trie.lookupAll s.snap k .standard).filter (fun p => !(s.grave.contains (k, p.text))) ++
-      (btreeRange s.btree k).filter (fun p => !(s.grave.contains (k, p.text))) := by
-  unfold entriesIterFor; rw [List.filter_append]
+  rw [List.filter_append, List.map_append,
+    filter_key_entries (fun e => !(btHas s.btree (e.1, e.2.text))) (fun p => !(btHas s.btree (k, p.text))) k
+      (by intro e he; simp [he]),
+    trie_entries_of_key, bt_entries_of_key]
 
 theorem leafOk_filter {ps : List Phrase} (h : LeafOk ps) (f : Phrase → Bool) : LeafOk (ps.filter f) :=
   List.Pairwise.filter _ h
+
+/-- the candidates of an exact lookup have pairwise different texts, in **every** state: a persisted
+    phrase that has a pending entry is dropped (fix 8e6d504, F10) -/
+theorem leafOk_cands {s : State} (hs : Inv s) (k : Key) : LeafOk (entriesIterFor s k .standard) := by
+  unfold entriesIterFor
+  refine leafOk_filter ?_ _
+  unfold LeafOk
+  rw [List.pairwise_append]
+  refine ⟨leafOk_filter (leafOk_lookupAll_std hs.snap k) _, leafOk_btreeRange hs.bt k, ?_⟩
+  intro a ha b hb e
+  simp only [List.mem_filter, Bool.not_eq_true', btHas_false] at ha
+  obtain ⟨w, hw, _⟩ := mem_btreeRange.mp hb
+  exact ha.2 w (by rw [e]; exact hw)
 
 /-- **snapshot lemma**: the file written from `entries()` holds, for every key, exactly the value
     the dictionary denotes -/
@@ -186,51 +185,33 @@ theorem build_abs {s : State} (hs : Inv s) (key : PKey) : baseGet (build (entrie
   intro v
   rw [baseGet_build]
   unfold leafOf
-  rw [entries_of_key hs.range, cands_split, List.foldl_append]
-  have hA := leafOk_filter (leafOk_lookupAll_std hs.snap k) (fun p => !(s.grave.contains (k, p.text)))
-  have hB := leafOk_filter (leafOk_btreeRange hs.bt k) (fun p => !(s.grave.contains (k, p.text)))
+  rw [entries_of_key]
+  have hC := leafOk_cands hs k
+  have hmem : ∀ p, p ∈ (entriesIterFor s k .standard).foldl insRepl [] ↔ p ∈ entriesIterFor s k .standard := by
+    intro p; rw [mem_foldl_insRepl hC]; simp
   constructor
   · rintro ⟨p, hp, et, hv⟩
-    rw [mem_foldl_insRepl hB, mem_foldl_insRepl hA] at hp
+    rw [hmem] at hp
+    obtain ⟨hg, h⟩ := (mem_cands hs).mp hp
     apply (absOver_eq_some hs.snap hs.bt).mpr
-    rcases hp with hp | ⟨hp | ⟨hp, _⟩, hn⟩
-    · rw [mem_filter_grave, mem_btreeRange hs.range] at hp
-      obtain ⟨⟨w, hw, hpw⟩, hg⟩ := hp
-      rw [et] at hw hg hpw
-      refine ⟨hg, Or.inl ?_⟩
+    rw [et] at hg
+    refine ⟨hg, ?_⟩
+    rcases h with ⟨⟨l, hl, e, hpl⟩, hn⟩ | ⟨w, hw, hpw⟩
+    · rw [et] at hn
+      exact Or.inr ⟨hn, l, hl, e, p, hpl, et, hv⟩
+    · left
+      rw [et] at hw
       have : w = v := by rw [← hv, hpw, valOf_mkPhrase]
       rw [← this]; exact hw
-    · rw [mem_filter_grave, mem_lookupAll_std hs.snap] at hp
-      obtain ⟨⟨l, hl, e, hpl⟩, hg⟩ := hp
-      rw [et] at hg
-      refine ⟨hg, Or.inr ⟨?_, l, hl, e, p, hpl, et, hv⟩⟩
-      intro w hw
-      apply hn
-      rw [mem_texts]
-      refine ⟨mkPhrase t w, ?_, by rw [mkPhrase_text, et]⟩
-      rw [mem_filter_grave, mem_btreeRange hs.range, mkPhrase_text]
-      exact ⟨⟨w, hw, rfl⟩, hg⟩
-    · simp at hp
   · intro h
     obtain ⟨hg, h⟩ := (absOver_eq_some hs.snap hs.bt).mp h
     rcases h with h | ⟨hn, l, hl, e, p, hp, et, hv⟩
     · refine ⟨mkPhrase t v, ?_, rfl, valOf_mkPhrase t v⟩
-      rw [mem_foldl_insRepl hB]
-      left
-      rw [mem_filter_grave, mem_btreeRange hs.range, mkPhrase_text]
-      exact ⟨⟨v, h, rfl⟩, hg⟩
+      rw [hmem]
+      exact (mem_cands hs).mpr ⟨hg, Or.inr ⟨v, h, rfl⟩⟩
     · refine ⟨p, ?_, et, hv⟩
-      rw [mem_foldl_insRepl hB, mem_foldl_insRepl hA]
-      right
-      refine ⟨Or.inl ?_, ?_⟩
-      · rw [mem_filter_grave, mem_lookupAll_std hs.snap]
-        exact ⟨⟨l, hl, e, hp⟩, by rw [et]; exact hg⟩
-      · intro hm
-        obtain ⟨q, hq, eq⟩ := mem_texts.mp hm
-        rw [mem_filter_grave, mem_btreeRange hs.range] at hq
-        obtain ⟨⟨w, hw, _⟩, _⟩ := hq
-        rw [eq, et] at hw
-        exact hn w hw
+      rw [hmem]
+      exact (mem_cands hs).mpr ⟨by rw [et]; exact hg, Or.inl ⟨⟨l, hl, e, hp⟩, by rw [et]; exact hn⟩⟩
 
 /-! ### invariant preservation and the refinement step -/
 
@@ -241,7 +222,7 @@ theorem absOver_empty (b : List Leaf) {s : State} (h1 : s.btree = []) (h2 : s.gr
 
 theorem inv_of_empty {s : State} (hsnap : SnapOk s.snap) (hfile : s.file = s.snap) (hi : s.inflight = none)
     (h1 : s.btree = []) (h2 : s.grave = []) : Inv s := by
-  refine ⟨by rw [h1]; exact List.Pairwise.nil, by simp [h1], hsnap, by rw [hfile]; exact hsnap, by simp [hi],
+  refine ⟨by rw [h1]; exact List.Pairwise.nil, hsnap, by rw [hfile]; exact hsnap, by simp [hi],
     by unfold abs; rw [hfile], by simp [hi], by simp [hi], ?_⟩
   intro _ _ k
   unfold abs
@@ -259,12 +240,8 @@ theorem abs_put {s : State} (hs : Inv s) (k : PKey) (v : Val) : abs (put s k v) 
 theorem abs_removeSt {s : State} (hs : Inv s) (k : PKey) : abs (removeSt s k) = (abs s).set k none :=
   absOver_remove s.snap hs.bt k
 
-theorem inv_put {s : State} (hs : Inv s) (k : PKey) (v : Val) (hr : inRange k.2 = true) : Inv (put s k v) := by
-  refine ⟨keysOk_btInsert hs.bt k v, ?_, hs.snap, hs.file, hs.infl, ?_, ?_, ?_, ?_⟩
-  · intro e he
-    rcases mem_btInsert.mp he with rfl | ⟨h, _⟩
-    · exact hr
-    · exact hs.range e h
+theorem inv_put {s : State} (hs : Inv s) (k : PKey) (v : Val) : Inv (put s k v) := by
+  refine ⟨keysOk_btInsert hs.bt k v, hs.snap, hs.file, hs.infl, ?_, ?_, ?_, ?_⟩
   · show absOver s.file (put s k v) = _
     rw [absOver_put s.file hs.bt, abs_put hs, hs.fileAgree]
   · intro t ht
@@ -273,10 +250,7 @@ theorem inv_put {s : State} (hs : Inv s) (k : PKey) (v : Val) (hr : inRange k.2 
   · intro hd; simp [put] at hd
 
 theorem inv_removeSt {s : State} (hs : Inv s) (k : PKey) : Inv (removeSt s k) := by
-  refine ⟨keysOk_btErase hs.bt k, ?_, hs.snap, hs.file, hs.infl, ?_, ?_, ?_, ?_⟩
-  · intro e he
-    simp only [removeSt, btErase, List.mem_filter] at he
-    exact hs.range e he.1
+  refine ⟨keysOk_btErase hs.bt k, hs.snap, hs.file, hs.infl, ?_, ?_, ?_, ?_⟩
   · show absOver s.file (removeSt s k) = _
     rw [absOver_remove s.file hs.bt, abs_removeSt hs, hs.fileAgree]
   · intro t ht
@@ -333,7 +307,7 @@ theorem inv_checkpoint {s : State} (hs : Inv s) : Inv (checkpoint s) ∧ abs (ch
   · obtain ⟨hi, hf, hd⟩ := h
     rw [checkpoint_fire hi hf hd]
     have hclean : ∀ k, baseGet (build (entries s)) k = abs s k := build_abs hs
-    refine ⟨⟨hs.bt, hs.range, hs.snap, hs.file, ?_, hs.fileAgree, ?_, ?_, ?_⟩, rfl⟩
+    refine ⟨⟨hs.bt, hs.snap, hs.file, ?_, hs.fileAgree, ?_, ?_, ?_⟩, rfl⟩
     · intro t ht
       simp only [Option.some.injEq] at ht
       rw [← ht]; exact snapOk_build _
@@ -361,7 +335,7 @@ theorem inv_sync {s : State} (hs : Inv s) : Inv (sync s) ∧ abs (sync s) = abs 
     cases hd : s.dirty with
     | true =>
       rw [sync_some_dirty hi hd]
-      refine ⟨⟨hs.bt, hs.range, hs.snap, hs.infl t hi, by simp, hs.inflAgree t hi, by simp, by simp, ?_⟩, rfl⟩
+      refine ⟨⟨hs.bt, hs.snap, hs.infl t hi, by simp, hs.inflAgree t hi, by simp, by simp, ?_⟩, rfl⟩
       intro hd'; simp [hd] at hd'
     | false =>
       rw [sync_some_clean hi hd]
@@ -376,7 +350,7 @@ theorem inv_sync {s : State} (hs : Inv s) : Inv (sync s) ∧ abs (sync s) = abs 
     | true =>
       rw [sync_none_file hi hf]
       have habs : abs { s with snap := s.file } = abs s := hs.fileAgree
-      refine ⟨⟨hs.bt, hs.range, hs.file, hs.file, ?_, rfl, ?_, ?_, ?_⟩, habs⟩
+      refine ⟨⟨hs.bt, hs.file, hs.file, ?_, rfl, ?_, ?_, ?_⟩, habs⟩
       · intro t ht; simp [hi] at ht
       · intro t ht; simp [hi] at ht
       · intro t ht; simp [hi] at ht
@@ -438,26 +412,17 @@ theorem inv_closeOpen {s : State} (hs : Inv s) : Inv (closeOpen s) ∧ abs (clos
     have : closeOpen s = s := by simp [closeOpen, hf]
     rw [this]; exact ⟨hs, rfl⟩
 
-/-- an operation whose phrase text can be stored (does not start with U+10FFFF, see `inRange`) -/
-def OpOk : Op → Prop
-  | .add _ t _ _ => inRange t = true
-  | .update _ t _ _ => inRange t = true
-  | _ => True
-
-instance (op : Op) : Decidable (OpOk op) := by
-  cases op <;> (unfold OpOk; infer_instance)
-
 theorem apply_remove (s : State) (k : Key) (t : Text) : apply s (.remove k t) = removeSt s (k, t) := rfl
 
 /-- every operation preserves the invariant -/
-theorem inv_apply {s : State} (hs : Inv s) (op : Op) (ho : OpOk op) : Inv (apply s op) := by
+theorem inv_apply {s : State} (hs : Inv s) (op : Op) : Inv (apply s op) := by
   cases op with
   | add k t f tm =>
     simp only [apply]
     split
-    · exact inv_put hs _ _ ho
+    · exact inv_put hs _ _
     · exact hs
-  | update k t f tm => exact inv_put hs _ _ ho
+  | update k t f tm => exact inv_put hs _ _
   | remove k t => rw [apply_remove]; exact inv_removeSt hs _
   | flush => exact (inv_checkpoint hs).1
   | reopen => exact (inv_sync hs).1
